@@ -110,6 +110,14 @@ package filesystem
 //@   let NEW = !old(has(fsdb.fsMetadata, ALIAS))
 // the stored configuration hash is read back from the artifact file: the base64 text between the first "#HASH:" and the
 // end of that line (C13, C10, C11: change detection compares against exactly what exportPemFile wrote)
+// the artifact file's modification time becomes LastBuild whenever the file could be read, whatever it contains (C11:
+// "config newer than artifact" and "issuer artifact newer" compare against it)
+//@   ghostret RDERR Any = callres("io.ReadAll", 1, 1)
+//@   ghostret STERR Any = callres("invoke:gopki/generator/db/filesystem.Filesystem.Stat", 1, 1)
+// (call number 0: the latest call; the configuration file's own modification time may have been read before)
+//@   ghostret MT time.Time = callres("invoke:io/fs.FileInfo.ModTime", 0, 0)
+//@   ensures @C11,C10 NEW && bound(RDERR) && RDERR == nil ==> bound(STERR)
+//@   ensures @C11,C10 NEW && bound(STERR) && STERR == nil ==> bound(MT) && deref(fsdb.fsMetadata[ALIAS]).LastBuild == MT
 //@   ghostret ART Slice = callres("io.ReadAll", 1, 0)
 //@   ghostret HIX Int = callres("bytes.Index", 1, 0)
 //@   ghostret HEND Int = callres("bytes.IndexRune", 1, 0)
